@@ -6,13 +6,15 @@ items/wires/manager.py as far as `grade()` is concerned), as the code is *after*
   * `PatchList.clear` keeps the patch entries (types/settings of `modify_patch` survive),
   * `Mesh.backport` pairs blocks with `Mesh.assembled` (the operations they were created from).
 
-Abstractions (see notes/C12.md): a point is a *location id* (two corners carry the same id iff they
-are the same point within TOL; the harness keeps distinct points far apart), an operation is
-(identity, 8 location ids, patch names, projections, 12 edge data, count-only chops, cell zone),
-the depot is flat (an entity contributes `entity.operations` in order), every axis of every
-operation carries its own chops (propagation between blocks is M-PROP, C01/C02/C04), the written
-dictionary is a canonical text of the sections vertices/blocks/edges/faces/boundary/defaultPatch/
-mergePatchPairs.  Core Lean only.
+Abstractions (see notes/C12.md): a point is a triple of rationals (`Pt`, the exact values of the float64
+coordinates); two corners are the same vertex iff their coordinates are equal (the harness sends the same
+triple for points within TOL and keeps distinct points at least 1e-3 apart); `move_to` / `translate` are
+assignments / additions of coordinates and the file prints them with `%.8f` (`fmt8`).  An operation is
+(identity, 8 points, patch names, projections, 12 edge data — line / arc / spline / polyLine / project with
+their payload —, count-only chops, cell zone), the depot is a list of entities holding one or several
+operations, every axis of every operation carries its own chops (propagation between blocks is M-PROP,
+C01/C02/C04), the written dictionary is a list of tokens, section by section, in the order `Mesh.write`
+emits them (regenerated from the source: `CBV.Gen.c12WriteSections`).  Core Lean only.
 -/
 import CBV.Model.Common
 import CBV.Gen.Tables
@@ -27,15 +29,71 @@ structure Chop where
   count : Nat
   deriving DecidableEq, Repr
 
-/-- Edge data of an operation: a line (never written) or an arc through a point (printed token). -/
+/-- a point: the exact rational values of its three float64 coordinates -/
+abbrev Pt := CBV.V3
+
+/-- `n` as a point on the x axis (keeps examples readable; `0` is the default of the totalised look-ups) -/
+instance (n : Nat) : OfNat Pt n := ⟨⟨(n : Rat), 0, 0⟩⟩
+
+/-- `Point.translate` / `position + displacement` -/
+def Pt.add (p d : Pt) : Pt := ⟨p.x + d.x, p.y + d.y, p.z + d.z⟩
+
+def pow10 : Nat → Nat
+  | 0 => 1
+  | n + 1 => 10 * pow10 n
+
+/-- nearest integer to a non-negative rational, ties to even -/
+def roundHalfEven (x : Rat) : Nat :=
+  let fl := x.floor.toNat
+  let fr := x - (fl : Rat)
+  if fr < 1 / 2 then fl else if 1 / 2 < fr then fl + 1 else if fl % 2 = 0 then fl else fl + 1
+
+/-- python `f"{x:.8f}"` of the float whose exact value is `q` (printf rounds the exact binary value, ties to even) -/
+def fmt8 (q : Rat) : String :=
+  let n := roundHalfEven ((if q < 0 then -q else q) * ((pow10 8 : Nat) : Rat))
+  let s := toString (n % pow10 8)
+  (if q < 0 then "-" else "") ++ toString (n / pow10 8) ++ "." ++ "".pushn '0' (8 - s.length) ++ s
+
+/-- `constants.vector_format` -/
+def Pt.descr (p : Pt) : String := s!"({fmt8 p.x} {fmt8 p.y} {fmt8 p.z})"
+
+/-- Edge data of an operation (`construct/edges.py`), the kinds whose written form does not depend on where the end
+    vertices are: a line (never written), an arc through a point, a spline / polyLine through points, an edge projected
+    to surfaces.  `backport()` moves the corner points of an operation and must not touch any of this. -/
 inductive EdgeData where
   | line
-  | arc (tok : String)
+  | arc (p : Pt)
+  | spline (ps : List Pt)
+  | polyLine (ps : List Pt)
+  | project (labels : List String)
   deriving DecidableEq, Repr
+
+def insertStr (l : String) : List String → List String
+  | [] => [l]
+  | x :: xs => if l < x then l :: x :: xs else x :: insertStr l xs
+
+/-- python `sorted(labels)` (`Project.convert_label`) -/
+def sortStr (xs : List String) : List String := xs.foldr insertStr []
+
+/-- `Edge.representation` -/
+def EdgeData.kind : EdgeData → String
+  | .line => "line"
+  | .arc _ => "arc"
+  | .spline _ => "spline"
+  | .polyLine _ => "polyLine"
+  | .project _ => "project"
+
+/-- what `Edge.description` prints after the two vertex indices -/
+def EdgeData.payload : EdgeData → String
+  | .line => ""
+  | .arc p => p.descr
+  | .spline ps => "(" ++ " ".intercalate (ps.map Pt.descr) ++ ")"
+  | .polyLine ps => "(" ++ " ".intercalate (ps.map Pt.descr) ++ ")"
+  | .project ls => "(" ++ " ".intercalate (sortStr ls) ++ ")"
 
 structure Op where
   id : Nat
-  corners : List Nat
+  corners : List Pt
   bottomPatch : Option String
   topPatch : Option String
   sidePatches : List (Option String)
@@ -52,7 +110,7 @@ structure Op where
 
 /-- `Vertex` + its `DuplicatedEntry`: location, `projected_to`, sorted slave patches. -/
 structure Vtx where
-  loc : Nat
+  loc : Pt
   proj : List String
   slaves : List String
   deriving DecidableEq, Repr
@@ -71,7 +129,7 @@ structure Block where
 structure Edge where
   v1 : Nat
   v2 : Nat
-  tok : String
+  data : EdgeData
   deriving DecidableEq, Repr
 
 structure Patch where
@@ -110,12 +168,12 @@ structure Mesh where
 /-! ### vertex list -/
 
 /-- `VertexList.find_duplicated`: the first entry at the same place with the same slave patches. -/
-def vfind (loc : Nat) (sl : List String) : List Vtx → Option Nat
+def vfind (loc : Pt) (sl : List String) : List Vtx → Option Nat
   | [] => none
   | v :: vs => if v.loc = loc ∧ v.slaves = sl then some 0 else (vfind loc sl vs).map (· + 1)
 
 /-- `VertexList.add(point, slave_patches)` (the list branch, the only one `Mesh` uses). -/
-def vadd (vs : List Vtx) (loc : Nat) (proj sl : List String) : List Vtx × Nat :=
+def vadd (vs : List Vtx) (loc : Pt) (proj sl : List String) : List Vtx × Nat :=
   match vfind loc sl vs with
   | some i => (vs, i)
   | none => (vs ++ [⟨loc, proj, sl⟩], vs.length)
@@ -172,7 +230,7 @@ def eadd (es : List Edge) (v1 v2 : Nat) (d : EdgeData) : List Edge :=
   if es.any (fun e => samePair e.v1 e.v2 v1 v2) then es
   else match d with
     | .line => es
-    | .arc tok => if v1 = v2 then es else es ++ [⟨v1, v2, tok⟩]
+    | d => if v1 = v2 then es else es ++ [⟨v1, v2, d⟩]
 
 /-- `EdgeList.add_from_operation`: the 12 beams in the order of `Frame.get_all_beams` (generated). -/
 def addEdges (es : List Edge) (o : Op) (vi : List Nat) : List Edge :=
@@ -299,17 +357,24 @@ def modify (m : Mesh) (n kind : String) (settings : Option (List String)) : Mesh
            modified := if n ∈ m.modified then m.modified else m.modified ++ [n] }
 
 /-- `mesh.vertices[r mod n].move_to(position)`; nothing when there are no vertices. -/
-def moveVertex (m : Mesh) (r loc : Nat) : Mesh :=
+def moveVertex (m : Mesh) (r : Nat) (loc : Pt) : Mesh :=
   if m.lists.verts.isEmpty then m
   else { m with lists := { m.lists with
            verts := m.lists.verts.modify (r % m.lists.verts.length) (fun v => { v with loc := loc }) } }
 
-def locOf (vs : List Vtx) (i : Nat) : Nat := ((vs[i]?).map (·.loc)).getD 0
+def locOf (vs : List Vtx) (i : Nat) : Pt := ((vs[i]?).map (·.loc)).getD 0
 
 /-- `mesh.vertices[r1 mod n].move_to(mesh.vertices[r2 mod n].position)`: the coordinates are *copied*, the two vertices
     are at the same place afterwards but stay two vertices (a later move of one does not move the other) -/
 def moveOnto (m : Mesh) (r1 r2 : Nat) : Mesh :=
   moveVertex m r1 (locOf m.lists.verts (r2 % m.lists.verts.length))
+
+/-- `mesh.vertices[r mod n].translate(d)`: `position = position + displacement` -/
+def translateVertex (m : Mesh) (r : Nat) (d : Pt) : Mesh :=
+  moveVertex m r ((locOf m.lists.verts (r % m.lists.verts.length)).add d)
+
+/-- an optimisation-style update: many vertices get new positions at once (`vertex.move_to` in a loop) -/
+def moveMany (m : Mesh) (mv : List (Nat × Pt)) : Mesh := mv.foldl (fun m p => moveVertex m p.1 p.2) m
 
 /-- the loop of `Mesh.backport`: `op.bottom_face.update(...)`, `op.top_face.update(...)` for every
     (block, operation it was created from); an operation is an object, so every depot entry with
@@ -350,6 +415,11 @@ def join (sep : String) (xs : List String) : String := sep.intercalate xs
 
 def showNats (xs : List Nat) : String := join "-" (xs.map toString)
 
+/-- the written dictionary as a list of tokens: a section is its name, its entries in order, and a closing `;` -/
+abbrev Text := List String
+
+def sec (name : String) (entries : List String) : Text := name :: entries ++ [";"]
+
 def Grading.descr (spec : List Chop) : String :=
   match spec with
   | [_] => "1"
@@ -366,28 +436,55 @@ def Block.descr (b : Block) : String :=
     else "edge," ++ join "," (b.wspec.map (fun ws => join "," (ws.map Grading.descr)))
   s!"{showNats b.verts}:{b.zone}:{showNats counts}:{gr}"
 
+/-- `Vertex.description` without the index comment: the `%.8f` coordinates and the surfaces it is projected to -/
 def Vtx.descr (v : Vtx) : String :=
-  if v.proj.isEmpty then toString v.loc else s!"{v.loc}:{join "+" v.proj}"
+  if v.proj.isEmpty then v.loc.descr else s!"{v.loc.descr} ({join " " v.proj})"
 
-def Edge.descr (e : Edge) : String := s!"{min e.v1 e.v2}-{max e.v1 e.v2}:{e.tok}"
+/-- `Edge.description`: kind, the two vertices (as an unordered pair, see C07 for the direction), payload -/
+def Edge.descr (e : Edge) : String := s!"{e.data.kind} {min e.v1 e.v2}-{max e.v1 e.v2} {e.data.payload}"
 
 def PFace.descr (f : PFace) : String := s!"{showNats f.verts}:{f.label}"
 
 def Patch.descr (p : Patch) : String :=
   s!"{p.name}:{p.kind}:{join "|" p.settings}:{join "," (p.sides.map showNats)}"
 
-/-- what `Mesh.write` puts into the file, section by section -/
-def render (m : Mesh) : String :=
+/-- `GeometryList.description` (nothing at all when no surface was added) -/
+def geometrySection (m : Mesh) : Text :=
+  if m.geometry.isEmpty then [] else sec "geometry" (m.geometry.map (fun e => s!"{e.1}:{join "|" e.2}"))
+
+/-- `PatchList.description`: boundary (side-less entries nobody modified are skipped), defaultPatch, mergePatchPairs -/
+def patchSection (m : Mesh) : Text :=
   let pats := m.lists.patches.filter (fun p => !(p.sides.isEmpty && !(m.modified.contains p.name)))
-  let dflt := match m.dflt with | some (n, k) => s!"{n}:{k}" | none => ""
-  "G[" ++ join ";" (m.geometry.map (fun e => s!"{e.1}:{join "|" e.2}")) ++ "]" ++
-  "V[" ++ join ";" (m.lists.verts.map Vtx.descr) ++ "]B[" ++ join ";" (m.lists.blocks.map Block.descr) ++
-  "]E[" ++ join ";" (m.lists.edges.map Edge.descr) ++ "]F[" ++ join ";" (m.lists.faces.map PFace.descr) ++
-  "]P[" ++ join ";" (pats.map Patch.descr) ++ "]D[" ++ dflt ++
-  "]M[" ++ join ";" (m.merged.map (fun p => s!"{p.1}-{p.2}")) ++ "]"
+  sec "boundary" (pats.map Patch.descr) ++
+  (match m.dflt with | some (n, k) => sec "defaultPatch" [s!"{n}:{k}"] | none => []) ++
+  sec "mergePatchPairs" (m.merged.map (fun p => s!"{p.1}-{p.2}"))
+
+/-- what one `output.write(<expr>)` of `Mesh.write` contributes, by the source text of `<expr>`; header, footer and
+    `format_settings()` are constant along the histories (no call touches `mesh.settings`) and contribute no token;
+    an expression the model does not know is `none` -/
+def sectionOf (m : Mesh) (expr : String) : Option Text :=
+  if expr = "constants.MESH_HEADER" then some []
+  else if expr = "self.format_settings()" then some []
+  else if expr = "self.geometry_list.description" then some (geometrySection m)
+  else if expr = "self.vertex_list.description" then some (sec "vertices" (m.lists.verts.map Vtx.descr))
+  else if expr = "self.block_list.description" then some (sec "blocks" (m.lists.blocks.map Block.descr))
+  else if expr = "self.edge_list.description" then some (sec "edges" (m.lists.edges.map Edge.descr))
+  else if expr = "self.face_list.description" then some (sec "faces" (m.lists.faces.map PFace.descr))
+  else if expr = "self.patch_list.description" then some (patchSection m)
+  else if expr = "constants.MESH_FOOTER" then some []
+  else none
+
+/-- the file as the concatenation of the `output.write(...)` calls listed in `order` -/
+def renderBy (order : List String) (m : Mesh) : Option Text := (order.mapM (sectionOf m)).map List.flatten
+
+/-- what `Mesh.write` puts into the file, section by section (`T_C12_tie_write`: this is `renderBy` of the order the
+    current source has) -/
+def render (m : Mesh) : Text :=
+  geometrySection m ++ sec "vertices" (m.lists.verts.map Vtx.descr) ++ sec "blocks" (m.lists.blocks.map Block.descr) ++
+  sec "edges" (m.lists.edges.map Edge.descr) ++ sec "faces" (m.lists.faces.map PFace.descr) ++ patchSection m
 
 /-- `Mesh.write`: assemble when needed, grade, render.  Returns the new state and the file or error. -/
-def write (m : Mesh) : Mesh × Except Err String :=
+def write (m : Mesh) : Mesh × Except Err Text :=
   let m1 := if isAssembled m then m else assemble m
   if !isAssembled m1 then (m1, .error .notAssembled)
   else
@@ -395,7 +492,7 @@ def write (m : Mesh) : Mesh × Except Err String :=
     if m2.lists.blocks.all Block.isDefined then (m2, .ok (render m2)) else (m2, .error .undefined)
 
 /-- the text of the file `write` produces (or the error) -/
-def written (m : Mesh) : Except Err String := (write m).2
+def written (m : Mesh) : Except Err Text := (write m).2
 
 /-! ### histories -/
 
@@ -407,7 +504,8 @@ inductive Step where
   | assemble
   | clear
   | backport
-  | move (r loc : Nat)
+  | move (r : Nat) (loc : Pt)
+  | translate (r : Nat) (d : Pt)   -- `vertex.translate(d)`
   | modify (n kind : String) (settings : Option (List String))
   | setDefault (n kind : String)
   | merge (master slave : String)
@@ -428,6 +526,7 @@ def step (m : Mesh) : Step → Mesh
   | .clear => clear m
   | .backport => (backport m).getD m
   | .move r loc => moveVertex m r loc
+  | .translate r d => translateVertex m r d
   | .modify n k s => modify m n k s
   | .setDefault n k => setDefault m n k
   | .merge a b => mergePatches m a b
@@ -445,7 +544,20 @@ def parseOptList (s : String) : List (Option String) := (s.splitOn ",").map optS
 
 def parseLabels (s : String) : List String := if s = "-" then [] else s.splitOn "+"
 
-def parseEdge (s : String) : EdgeData := if s = "-" then .line else .arc s
+/-- `x,y,z` with exact rationals `n/d` -/
+def parsePt? (s : String) : Option Pt := CBV.parseV3? s
+
+def parsePts? (s : String) : Option (List Pt) := (s.splitOn "|").mapM parsePt?
+
+/-- `-` | `arc:pt` | `spline:pt|pt|…` | `polyLine:pt|pt|…` | `project:label+label` -/
+def parseEdge? (s : String) : Option EdgeData :=
+  if s = "-" then some .line else
+  match s.splitOn ":" with
+  | ["arc", p] => (parsePt? p).map .arc
+  | ["spline", ps] => (parsePts? ps).map .spline
+  | ["polyLine", ps] => (parsePts? ps).map .polyLine
+  | ["project", ls] => some (.project (ls.splitOn "+"))
+  | _ => none
 
 def parseChops? (s : String) : Option (List Chop) :=
   if s = "-" then some [] else
@@ -453,19 +565,19 @@ def parseChops? (s : String) : Option (List Chop) :=
       | [r, n] => (n.toNat?).map (fun n => ⟨r, n⟩)
       | _ => none)
 
-/-- `add!id!c0,..,c7!bp,tp,s0,s1,s2,s3!bj,tj,j0,j1,j2,j3!cp0,..,cp7!e0,..,e11!ch0,ch1,ch2!zone` -/
+/-- `add!id!c0;..;c7!bp,tp,s0,s1,s2,s3!bj,tj,j0,j1,j2,j3!cp0,..,cp7!e0;..;e11!ch0,ch1,ch2!zone` (`ci` = `x,y,z`) -/
 def parseOp? (f : List String) : Option Op :=
   match f with
   | [id, cs, ps, js, cps, es, chs, zone] => do
       let id ← id.toNat?
-      let cs ← (cs.splitOn ",").mapM String.toNat?
+      let cs ← (cs.splitOn ";").mapM parsePt?
       if cs.length ≠ 8 then none
       let ps := parseOptList ps
       let js := parseOptList js
       if ps.length ≠ 6 || js.length ≠ 6 then none
       let cps := (cps.splitOn ",").map parseLabels
       if cps.length ≠ 8 then none
-      let es := (es.splitOn ",").map parseEdge
+      let es ← (es.splitOn ";").mapM parseEdge?
       if es.length ≠ 12 then none
       let chs ← (chs.splitOn ",").mapM parseChops?
       if chs.length ≠ 3 then none
@@ -488,7 +600,8 @@ def parseStep? (s : String) : Option Step :=
   | ["asm"] => some .assemble
   | ["clr"] => some .clear
   | ["bkp"] => some .backport
-  | ["mv", r, l] => do some (.move (← r.toNat?) (← l.toNat?))
+  | ["mv", r, l] => do some (.move (← r.toNat?) (← parsePt? l))
+  | ["tr", r, d] => do some (.translate (← r.toNat?) (← parsePt? d))
   | ["mvto", r1, r2] => do some (.moveOnto (← r1.toNat?) (← r2.toNat?))
   | ["mod", n, k, st] => some (.modify n k (if st = "-" then none else if st = "0" then some [] else some (st.splitOn "|")))
   | ["def", n, k] => some (.setDefault n k)
@@ -498,12 +611,12 @@ def parseStep? (s : String) : Option Step :=
   | _ => none
 
 def showDepot (m : Mesh) : String :=
-  join ";" (m.depot.map (fun o => s!"{o.id}={join "," (o.corners.map toString)}"))
+  join ";" (m.depot.map (fun o => s!"{o.id}={join "|" (o.corners.map V3.toStr)}"))
 
 /-- what the harness can observe of a call -/
 def observe (m : Mesh) : Step → String
   | .write => match (write m).2 with
-      | .ok t => "ok:" ++ t
+      | .ok t => "ok:" ++ join "\t" t
       | .error .notAssembled => "err:notAssembled"
       | .error .undefined => "err:undefined"
   | .backport => match backport m with
